@@ -18,7 +18,7 @@ from koala.hamiltonian import majorana_hamiltonian
 DRIVERS = ("c08",)
 TRANSLATORS = ("tiling_helpers",)
 MODEL_TARGETS = ["Gen/TilingGen.vo", "Model/Lattice.vo", "Model/Tiling.vo", "Model/Examples.vo", "Model/Bloch.vo"]
-TARGETS = ["Proofs/TilingFacts.vo", "Proofs/BlochFacts.vo"]
+TARGETS = ["Proofs/TilingFacts.vo", "Proofs/BlochFacts.vo", "Proofs/BlochCompleteAlg.vo", "Proofs/BlochComplete.vo"]
 LEVEL = "proof"
 TRUST = [
     "LAPACK eigvalsh and float exp/cos/sin (shell): the spectral clause is checked numerically (tol 1e-8) on the implementation; the theorem proves the algebraic intertwining A_tiled.Phi = Phi.H(w) over any commutative ring, not the diagonalisation",
